@@ -115,4 +115,4 @@ def streams(tier, rng):
         if refused != has310:
             return [('overlength', 'data beyond the announced length %s, error -310 %s' % ('sent' if refused else 'not sent', 'queued' if has310 else 'not queued'))]
         return []
-    yield {'name': 'streamed-blocks', 'cases': scases, 'oracle': soracle, 'nontrivial': lambda c, o: c if c.count('RDATA') >= 2 else None}
+    yield {'name': 'streamed-blocks', 'coqcheck': True, 'cases': scases, 'oracle': soracle, 'nontrivial': lambda c, o: c if c.count('RDATA') >= 2 else None}
